@@ -1572,6 +1572,8 @@ bool MEDDLY::dd_edge::getElemInt(long index, minterm &m) const
     MEDDLY_DCASSERT(fp->getEdgeType() == edge_type::LONG);
 
     if (index < 0) return false;
+    // the empty set has no elements; its root is not a node we can unpack
+    if (OMEGA_INFINITY == node) return false;
 
     node_handle p = node;
     unpacked_node* U = unpacked_node::New(fp, SPARSE_ONLY);
@@ -1629,6 +1631,8 @@ bool MEDDLY::dd_edge::getElemLong(long index, minterm &m) const
     MEDDLY_DCASSERT(fp->getEdgeType() == edge_type::LONG);
 
     if (index < 0) return false;
+    // the empty set has no elements; its root is not a node we can unpack
+    if (OMEGA_INFINITY == node) return false;
 
     node_handle p = node;
     unpacked_node* U = unpacked_node::New(fp, SPARSE_ONLY);
